@@ -6,3 +6,5 @@ import SodiumVerif.Model.Sched
 import SodiumVerif.Model.SchedScript
 import SodiumVerif.Spec.Denot
 import SodiumVerif.Spec.Script
+import SodiumVerif.Model.Txn
+import SodiumVerif.Model.TxnScript
